@@ -459,6 +459,9 @@ func (f *LpadFunction) Execute(ctx *FunctionContext, args []any) (any, error) {
 		pad = " "
 	}
 	padLen := length - strLen
+	if length > maxPadLength {
+		return nil, fmt.Errorf("pad length %d exceeds the maximum of %d", length, maxPadLength)
+	}
 	padStr := strings.Repeat(pad, int(padLen/int64(len(pad))+1))
 	return padStr[:padLen] + str, nil
 }
@@ -505,6 +508,9 @@ func (f *RpadFunction) Execute(ctx *FunctionContext, args []any) (any, error) {
 		pad = " "
 	}
 	padLen := length - strLen
+	if length > maxPadLength {
+		return nil, fmt.Errorf("pad length %d exceeds the maximum of %d", length, maxPadLength)
+	}
 	padStr := strings.Repeat(pad, int(padLen/int64(len(pad))+1))
 	return str + padStr[:padLen], nil
 }
@@ -660,3 +666,7 @@ func (f *RegexpSubstringFunction) Execute(ctx *FunctionContext, args []any) (any
 	match := re.FindString(str)
 	return match, nil
 }
+
+// maxPadLength bounds the result of lpad/rpad: an absurd length (e.g. math.MaxInt64) used to
+// panic inside strings.Repeat, and the panic escaped from EmitSync.
+const maxPadLength = 1 << 20
